@@ -30,7 +30,8 @@ fn main() {
         }
         "check" | "check-inner" => {
             let id = args.get(2).cloned().unwrap_or_else(|| usage());
-            let mut tier = Tier::Quick;
+            // an explicit --tier wins; VERIF_TIER is only the default
+            let mut tier = std::env::var("VERIF_TIER").ok().and_then(|t| Tier::parse(&t)).unwrap_or(Tier::Quick);
             let mut i = 3;
             while i < args.len() {
                 if args[i] == "--tier" {
@@ -38,11 +39,6 @@ fn main() {
                     i += 1;
                 }
                 i += 1;
-            }
-            if let Ok(t) = std::env::var("VERIF_TIER") {
-                if let Some(t) = Tier::parse(&t) {
-                    tier = t;
-                }
             }
             let Some((_, f, _)) = props::table().into_iter().find(|x| x.0 == id) else {
                 println!("MACHINERY-ERROR unknown property {id}");
